@@ -73,7 +73,7 @@ CHECKS = {
    text="v5 server and client x control service {no packet, own DISCONNECT, error, slow with explorer-chosen completion and outcome}: every sequence of up to 4 (quick) / 5 (thorough) close initiators, each up to twice, from 15 (server) / 9 (client) groups over application close() / close_with_reason() / close_with_no_reason() / force_close(), protocol handler asking to disconnect or failing, publish handler failing, QoS / RETAIN / subscription-identifier / unknown-alias / packet-too-large / receive-maximum violations, undecodable bytes, unexpected packet, keep-alive expiry on the virtual clock, peer DISCONNECT with and without session expiry, PINGREQ; applied in every order at quiescent points and with up to 2 (quick) / 3 (thorough) injections between any two task polls; oracle on the peer-side packet stream: at most one DISCONNECT, nothing after it, none once the peer's DISCONNECT was received (public is_disconnect_recv flag or protocol service called) before any local cause, library-made DISCONNECT never 0x00 after an error and exactly the dedicated code when only dedicated causes are present.",
    note=A_NOTE + " Application-supplied DISCONNECT packets are recognised by a reason-string marker; an unmarked 0x00 is attributed to sink.close() whenever close() was called earlier.", design="4/C15"),
  "C16": dict(engine="simnet", technique=A_TECH,
-   text="Per role and version every sequence of up to 3 (quick) / 4 (thorough) well-formed packets over 26-30 templates (every packet type incl. illegal directions, ids in use/free/unknown, PUBLISH complete/split/incomplete/duplicate/retain/wildcard/alias, second CONNECT, every ack type) against 4 application states (idle, outstanding sends, gated handlers, instead of the handshake); oracle: no panic, poll horizon never hit, at most one Stop with a protocol-error reason unless a DISCONNECT is in the sequence, and a connection without Stop still answers a probe.",
+   text="Per role and version every sequence of up to 3 (quick) / 4 (thorough) well-formed packets over 26-30 templates (every packet type incl. illegal directions, ids in use/free/unknown, PUBLISH complete/split/incomplete/duplicate/retain/wildcard/alias, second CONNECT, every ack type) against 5 application states (idle, outstanding sends, gated handlers, instead of the handshake, an outbound publish being streamed); oracle: no panic, poll horizon never hit, at most one Stop with a protocol-error reason unless a DISCONNECT is in the sequence, and a connection without Stop still answers a probe.",
    note=A_NOTE, design="4/C16"),
  "C17": dict(engine="simnet", technique=A_TECH,
    text="v5 server and client, plain handler and topic router: every sequence of up to 4 (quick) / 5 (thorough) publishes over topic {a,b,empty} x alias {none,1,2,3} with Topic Alias Maximum 2 against a per-connection reference map (resolved topic, chosen resource handler, or protocol error), plus a two-connection world in which bindings made on one connection must not resolve on the other.",
